@@ -102,7 +102,16 @@ def main():
             sh(["git", "-C", REPO, "worktree", "remove", "--force", wt])
         sh(["git", "-C", REPO, "worktree", "prune"])
         shutil.rmtree(base, ignore_errors=True)
-    json.dump(results, open(os.path.join(sd, "RESULTS.json"), "w"), indent=1, sort_keys=True)
+    import fcntl
+    with open(os.path.join(sd, ".results.lock"), "w") as lk:      # several pseedtest runs may finish together
+        fcntl.flock(lk, fcntl.LOCK_EX)
+        mine = dict((k, results[k]) for k in ids if k in results)
+        try:
+            results = json.load(open(os.path.join(sd, "RESULTS.json")))
+        except (OSError, ValueError):
+            results = {}
+        results.update(mine)
+        json.dump(results, open(os.path.join(sd, "RESULTS.json"), "w"), indent=1, sort_keys=True)
     missed = [k for k in ids if not results[k].get("caught")]
     print("this run: caught %d / %d; missed: %s" % (len(ids) - len(missed), len(ids), missed))
     allmissed = [k for k, v in results.items() if not v.get("caught")]
